@@ -904,78 +904,109 @@ pub mod vx_ids {
     // ------------------------------------------------------------------------------------------
     // general path, part 2: splicing the finished replacement into the old sequence
     // ------------------------------------------------------------------------------------------
-    pub proof fn lemma_ins_general<T: Merge>(o: Seq<Ent<T>>, lo: int, hi: int, range: Range<u32>, value: T, r: Seq<Ent<T>>, res: Seq<Ent<T>>)
+    /// the finished replacement is not empty: it covers `range.start`
+    pub proof fn lemma_repl_nonempty<T: Merge>(o: Seq<Ent<T>>, lo: int, hi: int, range: Range<u32>, value: T, r: Seq<Ent<T>>)
         requires
             win(o, lo, hi, range),
-            value.wf(),
             finv(o, range, value, win_lo(o, lo, range), r, win_hi(o, hi, range)),
-            res =~= splice(o, lo, hi, r),
         ensures
-            ins_post(o, range, value, res),
             r.len() > 0,
     {
         reveal(win);
         reveal(finv);
-        reveal(ins_post);
-        reveal(splice);
-        let wa = win_lo(o, lo, range);
-        let wb = win_hi(o, hi, range);
-        lemma_win_facts(o, lo, hi, range, lo);
-        lemma_win_facts(o, lo, hi, range, hi - 1);
-        // r is not empty: it covers range.start
         let c0 = range.start as int;
         assert(inr(range, c0));
         assert(target(o, range, c0));
         assert(covers(r, c0));
-        assert(r.len() > 0) by {
-            let k = idx_of(r, c0);
-            assert(inr(r[k].0, c0));
+        let k = idx_of(r, c0);
+        assert(inr(r[k].0, c0));
+    }
+
+    /// left seam: if the entry in front of the window touches the replacement, the values differ
+    pub proof fn lemma_seam_left<T: Merge>(o: Seq<Ent<T>>, lo: int, hi: int, range: Range<u32>, value: T, r: Seq<Ent<T>>)
+        requires
+            win(o, lo, hi, range),
+            value.wf(),
+            finv(o, range, value, win_lo(o, lo, range), r, win_hi(o, hi, range)),
+            r.len() > 0,
+            lo > 0,
+            o[lo - 1].0.end == r[0].0.start,
+        ensures
+            !o[lo - 1].1.eq_spec(&r[0].1),
+    {
+        reveal(win);
+        reveal(finv);
+        let wa = win_lo(o, lo, range);
+        lemma_win_facts(o, lo, hi, range, lo);
+        let c = r[0].0.start as int;
+        assert(inr(r[0].0, c));
+        lemma_idx_unique(r, 0, c);
+        assert(wa <= c);
+        assert(o[lo - 1].0.end <= o[lo].0.start);
+        assert(c == o[lo].0.start && c < range.start);
+        assert(inr(o[lo].0, c));
+        lemma_idx_unique(o, lo, c);
+        assert(tv_ok(o, range, value, c, val_at(r, c)));
+        assert(r[0].1.eq_spec(&o[lo].1));
+        assert(o[lo - 1].1.wf() && o[lo].1.wf() && r[0].1.wf());
+        if o[lo - 1].1.eq_spec(&r[0].1) {
+            o[lo - 1].1.law_eq_trans(&r[0].1, &o[lo].1);
+            assert(false);
         }
+    }
+
+    /// right seam: if the replacement touches the entry behind the window, the values differ
+    pub proof fn lemma_seam_right<T: Merge>(o: Seq<Ent<T>>, lo: int, hi: int, range: Range<u32>, value: T, r: Seq<Ent<T>>)
+        requires
+            win(o, lo, hi, range),
+            value.wf(),
+            finv(o, range, value, win_lo(o, lo, range), r, win_hi(o, hi, range)),
+            r.len() > 0,
+            hi < o.len(),
+            r.last().0.end == o[hi].0.start,
+        ensures
+            !r.last().1.eq_spec(&o[hi].1),
+    {
+        reveal(win);
+        reveal(finv);
+        let wb = win_hi(o, hi, range);
+        lemma_win_facts(o, lo, hi, range, hi - 1);
         let n = r.len() - 1;
-        // left seam
-        if lo > 0 && o[lo - 1].0.end == r[0].0.start {
-            let c = r[0].0.start as int;
-            assert(inr(r[0].0, c));
-            lemma_idx_unique(r, 0, c);
-            assert(wa <= c);
-            assert(o[lo - 1].0.end <= o[lo].0.start);
-            assert(c == o[lo].0.start && c < range.start);
-            assert(inr(o[lo].0, c));
-            lemma_idx_unique(o, lo, c);
-            assert(tv_ok(o, range, value, c, val_at(r, c)));
-            assert(r[0].1.eq_spec(&o[lo].1));
-            if o[lo - 1].1.eq_spec(&r[0].1) {
-                o[lo - 1].1.law_eq_trans(&r[0].1, &o[lo].1);
-                assert(false);
-            }
+        let c = r[n].0.end as int - 1;
+        assert(inr(r[n].0, c));
+        lemma_idx_unique(r, n, c);
+        assert(c < wb);
+        assert(o[hi - 1].0.end <= o[hi].0.start);
+        assert(c + 1 == o[hi - 1].0.end && c >= range.end);
+        assert(inr(o[hi - 1].0, c));
+        lemma_idx_unique(o, hi - 1, c);
+        assert(tv_ok(o, range, value, c, val_at(r, c)));
+        assert(r[n].1.eq_spec(&o[hi - 1].1));
+        assert(o[hi - 1].1.wf() && o[hi].1.wf() && r[n].1.wf());
+        if r[n].1.eq_spec(&o[hi].1) {
+            r[n].1.law_eq_sym(&o[hi - 1].1);
+            o[hi - 1].1.law_eq_trans(&r[n].1, &o[hi].1);
+            assert(false);
         }
-        // right seam
-        if hi < o.len() && r[n].0.end == o[hi].0.start {
-            let c = r[n].0.end as int - 1;
-            assert(inr(r[n].0, c));
-            lemma_idx_unique(r, n, c);
-            assert(c < wb);
-            assert(o[hi - 1].0.end <= o[hi].0.start);
-            assert(c + 1 == o[hi - 1].0.end && c >= range.end);
-            assert(inr(o[hi - 1].0, c));
-            lemma_idx_unique(o, hi - 1, c);
-            assert(tv_ok(o, range, value, c, val_at(r, c)));
-            assert(r[n].1.eq_spec(&o[hi - 1].1));
-            if r[n].1.eq_spec(&o[hi].1) {
-                r[n].1.law_eq_sym(&o[hi - 1].1);
-                o[hi - 1].1.law_eq_trans(&r[n].1, &o[hi].1);
-                assert(false);
-            }
-        }
-        if lo > 0 { assert(o[lo - 1].0.end <= o[lo].0.start); }
-        if hi < o.len() { assert(o[hi - 1].0.end <= o[hi].0.start); }
-        lemma_splice(o, lo, hi, r, wa, wb);
-        assert forall|c: int| covers(o, c) && !(wa <= c < wb) implies #[trigger] val_at(res, c).eq_spec(&val_at(o, c)) by {
-            let k = idx_of(o, c);
-            assert(inr(o[k].0, c));
-            o[k].1.law_eq_refl();
-        }
-        assert forall|c: int| covers(res, c) <==> covers(o, c) || inr(range, c) by {
+    }
+
+    /// the contract from the splice facts and the frontier invariant of the finished replacement
+    pub proof fn lemma_ins_final<T: Merge>(o: Seq<Ent<T>>, range: Range<u32>, value: T, r: Seq<Ent<T>>, res: Seq<Ent<T>>, wa: int, wb: int)
+        requires
+            canon(o),
+            finv(o, range, value, wa, r, wb),
+            wa <= range.start,
+            range.end <= wb,
+            canon(res),
+            forall|c: int| #[trigger] covers(res, c) <==> covers(r, c) || (covers(o, c) && !(wa <= c < wb)),
+            forall|c: int| covers(r, c) ==> #[trigger] val_at(res, c) == val_at(r, c),
+            forall|c: int| covers(o, c) && !(wa <= c < wb) ==> #[trigger] val_at(res, c) == val_at(o, c),
+        ensures
+            ins_post(o, range, value, res),
+    {
+        reveal(finv);
+        reveal(ins_post);
+        assert forall|c: int| #![trigger covers(res, c)] #![trigger covers(o, c)] #![trigger inr(range, c)] covers(res, c) <==> covers(o, c) || inr(range, c) by {
             assert(covers(r, c) <==> wa <= c < wb && target(o, range, c));
         }
         assert forall|c: int| covers(o, c) && !inr(range, c) implies #[trigger] val_at(res, c).eq_spec(&val_at(o, c)) by {
@@ -983,6 +1014,10 @@ pub mod vx_ids {
                 assert(target(o, range, c));
                 assert(covers(r, c));
                 assert(tv_ok(o, range, value, c, val_at(r, c)));
+            } else {
+                let k = idx_of(o, c);
+                assert(inr(o[k].0, c));
+                o[k].1.law_eq_refl();
             }
         }
         assert forall|c: int| !covers(o, c) && inr(range, c) implies #[trigger] val_at(res, c).eq_spec(&value) by {
@@ -995,6 +1030,39 @@ pub mod vx_ids {
             assert(covers(r, c));
             assert(tv_ok(o, range, value, c, val_at(r, c)));
         }
+    }
+
+    pub proof fn lemma_ins_general<T: Merge>(o: Seq<Ent<T>>, lo: int, hi: int, range: Range<u32>, value: T, r: Seq<Ent<T>>, res: Seq<Ent<T>>)
+        requires
+            win(o, lo, hi, range),
+            value.wf(),
+            finv(o, range, value, win_lo(o, lo, range), r, win_hi(o, hi, range)),
+            res == splice(o, lo, hi, r),
+        ensures
+            ins_post(o, range, value, res),
+            r.len() > 0,
+    {
+        let wa = win_lo(o, lo, range);
+        let wb = win_hi(o, hi, range);
+        lemma_repl_nonempty(o, lo, hi, range, value, r);
+        assert(0 <= lo < hi <= o.len()) by { reveal(win); }
+        if lo > 0 && o[lo - 1].0.end == r[0].0.start {
+            lemma_seam_left(o, lo, hi, range, value, r);
+        }
+        if hi < o.len() && r.last().0.end == o[hi].0.start {
+            lemma_seam_right(o, lo, hi, range, value, r);
+        }
+        assert(canon(o) && canon(r) && 0 <= lo < hi <= o.len()
+            && (lo > 0 ==> o[lo - 1].0.end <= wa) && (hi < o.len() ==> wb <= o[hi].0.start)
+            && wa <= o[lo].0.start && o[hi - 1].0.end <= wb && wa <= range.start && range.end <= wb
+            && (forall|c: int| #[trigger] covers(r, c) ==> wa <= c < wb)) by {
+            reveal(win);
+            reveal(finv);
+            if lo > 0 { assert(o[lo - 1].0.end <= o[lo].0.start); }
+            if hi < o.len() { assert(o[hi - 1].0.end <= o[hi].0.start); }
+        }
+        lemma_splice(o, lo, hi, r, wa, wb);
+        lemma_ins_final(o, range, value, r, res, wa, wb);
     }
 
     /// the partition index of `start < x` in a canonical sequence (what `partition_point` computes)
@@ -1307,15 +1375,13 @@ pub mod vx_ids {
             requires canon(old(self)@), value.wf(),
             ensures
                 canon(final(self)@),
-                forall|c: int| covers(final(self)@, c) <==> covers(old(self)@, c) || inr(range, c),
+                forall|c: int| #![trigger covers(final(self)@, c)] #![trigger covers(old(self)@, c)] #![trigger inr(range, c)] covers(final(self)@, c) <==> covers(old(self)@, c) || inr(range, c),
                 forall|c: int| covers(old(self)@, c) && !inr(range, c) ==> #[trigger] val_at(final(self)@, c).eq_spec(&val_at(old(self)@, c)),
                 forall|c: int| !covers(old(self)@, c) && inr(range, c) ==> #[trigger] val_at(final(self)@, c).eq_spec(&value),
                 forall|c: int| covers(old(self)@, c) && inr(range, c) ==> #[trigger] val_at(final(self)@, c).eq_spec(&val_at(old(self)@, c).merge_spec(&value)),
         @start
             hide(sorted);
             hide(coalesced);
-            hide(nonempty);
-            hide(vals_wf);
             let ghost o = self.0@;
             proof { T::law_obeys_eq(); }
         @before 1 `stmt:return`
@@ -1473,15 +1539,7 @@ pub mod vx_ids {
             requires canon(old(self)@),
             ensures
                 canon(final(self)@),
-                forall|c: int| covers(final(self)@, c) <==> covers(old(self)@, c) || inr(range, c),
-        @end
-            proof {
-                // the callee's clause is triggered on `inr(range, c)` only: restate it with triggers on `covers`
-                assert forall|c: int| #![trigger covers(self@, c)] #![trigger covers(old(self)@, c)] covers(self@, c) <==> covers(old(self)@, c) || inr(range, c) by {
-                    let b = inr(range, c);
-                    assert(b || !b);
-                }
-            }
+                forall|c: int| #![trigger covers(final(self)@, c)] #![trigger covers(old(self)@, c)] #![trigger inr(range, c)] covers(final(self)@, c) <==> covers(old(self)@, c) || inr(range, c),
         @*/
     }
 }
